@@ -2,6 +2,7 @@
 
 use crate::groups::Groups;
 
+pub mod c01;
 pub mod c05;
 pub mod c05_loop;
 pub mod c09;
@@ -25,7 +26,7 @@ pub struct PropDef {
 }
 
 pub fn all() -> &'static [PropDef] {
-    &[c05::DEF, c09::DEF, c10::DEF, c11::DEF, c18::DEF]
+    &[c01::DEF, c05::DEF, c09::DEF, c10::DEF, c11::DEF, c18::DEF]
 }
 
 /// Serde helper: u128 as decimal string (serde_json cannot read back large
